@@ -46,6 +46,8 @@ const (
 	genuineIP  = "10.0.0.2"
 	captureIP  = "10.0.0.7"
 	freshIP    = "10.0.0.9"
+	lateIP1    = "10.0.0.11"
+	lateIP2    = "10.0.0.12"
 	proberIP   = "203.0.113.66"
 	hdrLen     = 72
 )
@@ -60,6 +62,10 @@ type probe struct {
 	tsOK             bool
 	sid              uint32
 	info             string // extra text for failure reports
+	shaped           bool   // plen/slen describe the (crafted) first segment the probe was cut from / extended
+	plen, slen       int
+	closeAfter       bool // TCP: the prober closes the connection right after writing
+	expectSession    bool // a complete segment made with a registered credential: must be accepted (sanity of the crafting)
 }
 
 type env struct {
@@ -92,7 +98,7 @@ func newEnv(r *vh.Run, transport, label string, sp, cp *appctlpb.TrafficPattern)
 			e.acceptedN++
 			e.mu.Unlock()
 			host, _, _ := net.SplitHostPort(ra)
-			if host == genuineIP || host == captureIP || host == freshIP {
+			if host == genuineIP || host == captureIP || host == freshIP || host == lateIP1 || host == lateIP2 {
 				go func(c net.Conn) { io.Copy(c, c); c.Close() }(c)
 			} else {
 				c.Close()
@@ -228,8 +234,12 @@ func (p probe) caseLine(transport string) string {
 	if sid == 0 && !p.opens {
 		sid = 7
 	}
-	return fmt.Sprintf("%s %s %s %d %s %d %d %s %d %d", p.tag, transport, p.kind, len(p.data), p.field,
+	line := fmt.Sprintf("%s %s %s %d %s %d %d %s %d %d", p.tag, transport, p.kind, len(p.data), p.field,
 		b01(len(p.data) >= hdrLen), b01(p.opens), ts, b01(p.dup), sid)
+	if p.shaped {
+		line += fmt.Sprintf(" %d %d", p.plen, p.slen)
+	}
+	return line
 }
 
 func (e *env) sessionList() []*appctlpb.SessionInfo { return e.rg.Server.ExportSessionInfoList().GetItems() }
@@ -241,7 +251,14 @@ func (e *env) judge(p probe, src string, o obs, sigPrefix string) {
 	r.Count(e.transport + ":" + p.tag + ":" + p.kind)
 	r.Distinct(fmt.Sprintf("%s/%s/%s/%s/%d/%v/%v/%v/%s", e.label, e.transport, p.kind, p.field, lenClass(len(p.data)), p.opens, p.dup, p.tsOK, p.srcIP))
 	c := map[string]interface{}{"transport": e.transport, "server": e.label, "kind": p.kind, "field": p.field, "src": src,
-		"len": len(p.data), "data_hex": vh.Hex(clip(p.data, 600)), "info": p.info, "virtual_time": time.Now().UTC().Format(time.RFC3339)}
+		"len": len(p.data), "data_hex": vh.Hex(clip(p.data, 3200)), "info": p.info, "virtual_time": time.Now().UTC().Format(time.RFC3339),
+		"close_after_write": p.closeAfter}
+	if p.expectSession {
+		if o.acc != 1 {
+			r.Fail("driver-crafted-segment-not-accepted", fmt.Sprintf("%s: a complete first segment made by refcodec with a registered credential was not accepted (%s): the truncation / extension probes cut from such segments prove nothing", e.transport, p.info), c)
+		}
+		return
+	}
 	if o.bytesToProber > 0 {
 		r.Fail(sigPrefix+e.transport+"-bytes-to-prober", fmt.Sprintf("the server wrote %d byte(s) to %s after a %s probe (%s)", o.bytesToProber, src, p.kind, p.field), c)
 	}
@@ -303,6 +320,9 @@ func (e *env) tcpFire(ps []probe, sigPrefix string) *tcpPending {
 		h.conns[i] = c
 		if len(p.data) > 0 {
 			c.Write(p.data)
+		}
+		if p.closeAfter {
+			c.Close()
 		}
 	}
 	time.Sleep(2 * time.Second)
@@ -425,10 +445,10 @@ func creds() []trace.Cred {
 }
 
 // record runs one genuine session of `user` from captureIP that echoes `n` bytes, and returns its client-to-server traffic.
-func (e *env) record(user string, n int, rng *vh.Rng, keepOpen bool) (*capture, func(), error) {
+func (e *env) record(user string, n int, rng *vh.Rng, keepOpen bool, fromIP string) (*capture, func(), error) {
 	start := len(e.rg.Net.Log.Snapshot())
 	at := time.Now()
-	mux, err := e.rg.NewClient(user, users[user], e.rg.Opts.ClientPattern, captureIP)
+	mux, err := e.rg.NewClient(user, users[user], e.rg.Opts.ClientPattern, fromIP)
 	if err != nil {
 		return nil, nil, err
 	}
@@ -445,6 +465,16 @@ func (e *env) record(user string, n int, rng *vh.Rng, keepOpen bool) (*capture, 
 		mux.Close()
 		return nil, nil, fmt.Errorf("capture echo: %w", err)
 	}
+	if keepOpen {
+		// a second, larger round so that the recording holds data and ack segments besides the open request, and a
+		// pause so that the acks that follow the last read are in the log too
+		if err := g.echo(rng.Bytes(2500)); err != nil {
+			conn.Close()
+			mux.Close()
+			return nil, nil, fmt.Errorf("capture echo 2: %w", err)
+		}
+		time.Sleep(time.Second)
+	}
 	closer := func() { conn.Close(); mux.Close(); time.Sleep(3 * time.Second) }
 	if !keepOpen {
 		closer()
@@ -454,7 +484,7 @@ func (e *env) record(user string, n int, rng *vh.Rng, keepOpen bool) (*capture, 
 	if e.transport == "tcp" {
 		for _, tc := range trace.TCP(evs, creds()) {
 			host, _, _ := net.SplitHostPort(tc.C2S.Src)
-			if host != captureIP {
+			if host != fromIP {
 				continue
 			}
 			c.stream, c.segEnd, c.src = tc.C2S.Bytes, tc.C2S.SegEnd, tc.C2S.Src
@@ -468,7 +498,7 @@ func (e *env) record(user string, n int, rng *vh.Rng, keepOpen bool) (*capture, 
 				continue
 			}
 			host, _, _ := net.SplitHostPort(ev.Src)
-			if host != captureIP {
+			if host != fromIP {
 				continue
 			}
 			c.dgrams = append(c.dgrams, ev.Data)
@@ -571,6 +601,26 @@ func forgedHandshake(rng *vh.Rng, keyUser, keyPass, hintUser string, transport s
 	return out
 }
 
+// craft makes a complete, fresh (new random nonce) first segment / first datagram of `user` with the user's real
+// credential: openSessionRequest with `payload` piggybacked bytes and `pad` bytes of suffix padding.
+func craft(rng *vh.Rng, transport, user string, payload, pad int) ([]byte, uint32) {
+	key := refcodec.KeysAt(refcodec.HashedPassword(user, users[user]), time.Now())[1]
+	nonce := rng.Bytes(24)
+	refcodec.SetUserHint(user, nonce)
+	sid := uint32(rng.Range(1, 1<<30))
+	seg := refcodec.Segment{Meta: refcodec.Meta{Proto: refcodec.OpenSessionRequest, Timestamp: refcodec.TimestampOf(time.Now()), SessionID: sid},
+		Payload: rng.Bytes(payload), Suffix: rng.Bytes(pad)}
+	if transport == "udp" {
+		return refcodec.EncodeDatagram(key, nonce, seg), sid
+	}
+	return refcodec.NewStreamEncoder(key, nonce).Encode(seg), sid
+}
+
+type shape struct {
+	user         string
+	payload, pad int
+}
+
 func runProbe(r *vh.Run, transport, label string, sp, cp *appctlpb.TrafficPattern, full bool) {
 	e, err := newEnv(r, transport, label, sp, cp)
 	if err != nil {
@@ -594,7 +644,7 @@ func runProbe(r *vh.Run, transport, label string, sp, cp *appctlpb.TrafficPatter
 	var caps []*capture
 	for i := 0; i < ncap; i++ {
 		u := []string{"alice", "bob", "alice"}[i%3]
-		c, _, err := e.record(u, []int{100, 900, 5000}[i%3], rng, false)
+		c, _, err := e.record(u, []int{100, 900, 5000}[i%3], rng, false, captureIP)
 		if err != nil {
 			r.Fail("genuine-client-cannot-connect", fmt.Sprintf("%s/%s capture: %v", label, transport, err), map[string]string{"server": label})
 			return
@@ -672,10 +722,78 @@ func runProbe(r *vh.Run, transport, label string, sp, cp *appctlpb.TrafficPatter
 		add(probe{kind: "real-hint-foreign-key", field: "key", data: forgedHandshake(rng, "mallory", "mallory-password", "bob", transport, pl)})
 		add(probe{kind: "password-of-other-user", field: "key", data: forgedHandshake(rng, "alice", users["bob"], "alice", transport, pl)})
 	}
+	// 5. truncations and extensions of complete first segments made with a registered credential. Every probe is cut
+	// from its own freshly sealed segment (new nonce), so the replay cache never hides what the parser does with it.
+	shapes := []shape{{"alice", 0, 37}, {"bob", 48, 255}}
+	if r.Thorough() {
+		shapes = append(shapes, shape{"alice", 1024, 255}, shape{"bob", 1, 1}, shape{"alice", 300, 128}, shape{"bob", 0, 255})
+	}
+	for _, sh := range shapes {
+		full, sid := craft(rng, transport, sh.user, sh.payload, sh.pad)
+		total := len(full)
+		base := probe{opens: true, sid: sid, shaped: true, plen: sh.payload, slen: sh.pad}
+		where := func(n int) string {
+			box := 0
+			if sh.payload > 0 {
+				box = sh.payload + 16
+			}
+			switch {
+			case n < hdrLen+box:
+				return "payload-box"
+			default:
+				return "padding"
+			}
+		}
+		// the complete segment is accepted (sent from a genuine address so that the session is served)
+		g := base
+		g.kind, g.field, g.data, g.srcIP, g.expectSession = "crafted-complete", "none", full, captureIP, true
+		g.info = fmt.Sprintf("%s payload %d padding %d", sh.user, sh.payload, sh.pad)
+		add(g)
+		ps[len(ps)-1].tag = "G"
+		for n := hdrLen; n < total; n++ {
+			for v := 0; v < 2; v++ {
+				if transport == "udp" && v == 1 {
+					continue
+				}
+				d, sid2 := craft(rng, transport, sh.user, sh.payload, sh.pad)
+				q := base
+				q.sid, q.data, q.field = sid2, d[:n], where(n)
+				q.kind = "segment-prefix-stall"
+				if v == 1 {
+					q.kind, q.closeAfter = "segment-prefix-close", true
+				}
+				q.info = fmt.Sprintf("%s payload %d padding %d: first %d of %d bytes", sh.user, sh.payload, sh.pad, n, total)
+				add(q)
+			}
+		}
+		if transport == "udp" {
+			var ks []int
+			maxK := 1500 - total
+			if r.Thorough() {
+				for k := 1; k <= maxK; k++ {
+					ks = append(ks, k)
+				}
+			} else {
+				for _, k := range []int{1, 2, 16, 255, 256, 257, 511, 512, 513, 767, 768, 769, 1023, 1024, 1025, maxK - 1, maxK} {
+					if k >= 1 && k <= maxK {
+						ks = append(ks, k)
+					}
+				}
+			}
+			for _, k := range ks {
+				d, sid2 := craft(rng, transport, sh.user, sh.payload, sh.pad)
+				q := base
+				q.sid, q.kind, q.field = sid2, "datagram-extension", fmt.Sprintf("plus-%d", k)
+				q.data = append(d, rng.Bytes(k)...)
+				q.info = fmt.Sprintf("%s payload %d padding %d: complete datagram of %d bytes followed by %d extra bytes", sh.user, sh.payload, sh.pad, total, k)
+				add(q)
+			}
+		}
+	}
 	// cross-check the claimed attributes with the independent codec
 	for i := range ps {
-		if o, _ := headerOpens(ps[i].data, time.Now()); o {
-			panic("driver bug: a probe opens under a registered key: " + ps[i].kind + " " + ps[i].info)
+		if o, _ := headerOpens(ps[i].data, time.Now()); o != ps[i].opens {
+			panic("driver bug: a probe's 'opens' attribute is wrong: " + ps[i].kind + " " + ps[i].info)
 		}
 	}
 	e.batch(ps, "")
@@ -770,12 +888,28 @@ func runReplay(r *vh.Run, transport string) {
 	for rec := 0; rec < nrec; rec++ {
 		user := []string{"bob", "alice"}[rec%2]
 		size := []int{600, 5000, 40, 70000, 1500}[rec%5]
-		c, closer, err := e.record(user, size, rng, true)
+		c, closer, err := e.record(user, size, rng, true, captureIP)
 		if err != nil {
 			r.Fail("replay-genuine-client-cannot-connect", err.Error(), map[string]string{"transport": transport})
 			return
 		}
 		t0 := c.at
+		// UDP: further short sessions that are closed at once and whose datagrams are replayed for the FIRST time only
+		// after the session ended and was cleaned (at offsets[1] = +6 s resp. offsets[2] = +30 s): a replay that finds
+		// the original session alive is absorbed by it, and one replay may change what the cache holds for the next.
+		late := map[int]*capture{}
+		if transport == "udp" {
+			for k, lip := range map[int]string{1: lateIP1, 2: lateIP2} {
+				lc, lcloser, lerr := e.record([]string{"alice", "bob"}[k%2], 100, rng, true, lip)
+				if lerr != nil {
+					r.Fail("replay-genuine-client-cannot-connect", lerr.Error(), map[string]string{"transport": transport})
+					return
+				}
+				lcloser()
+				late[k] = lc
+			}
+			t0 = time.Now()
+		}
 		// the variants of one recorded session
 		type variant struct {
 			kind string
@@ -798,12 +932,18 @@ func runReplay(r *vh.Run, transport string) {
 			}
 		} else {
 			vs = append(vs, variant{"first-datagram", [][]byte{c.dgrams[0]}})
-			vs = append(vs, variant{"all-datagrams", c.dgrams})
+			vs = append(vs, variant{"each-datagram", c.dgrams}) // every recorded datagram on its own, each from its own fresh source address
 		}
 		var pending []*tcpPending
-		offsets := []time.Duration{0, 30 * time.Second, 119 * time.Second, 239 * time.Second, 400 * time.Second, 800 * time.Second}
+		lateFrom := map[string]int{}
+		for k, lc := range late {
+			kind := fmt.Sprintf("each-datagram-first-replayed-after-close-%d", k)
+			vs = append(vs, variant{kind, lc.dgrams})
+			lateFrom[kind] = k
+		}
+		offsets := []time.Duration{0, 6 * time.Second, 30 * time.Second, 119 * time.Second, 239 * time.Second, 400 * time.Second, 800 * time.Second}
 		if !r.Thorough() {
-			offsets = offsets[:5]
+			offsets = offsets[:6]
 		}
 		closedAt := 1 // the original session is closed before the replay at offsets[closedAt]
 		if rec%2 == 1 {
@@ -821,6 +961,9 @@ func runReplay(r *vh.Run, transport string) {
 			fresh, ferr := e.startGenuine([]string{"alice", "bob"}[oi%2], freshIP, rng.Fork(), rng.Bytes(64))
 			var ps []probe
 			for _, v := range vs {
+				if oi < lateFrom[v.kind] {
+					continue
+				}
 				for di, d := range v.data {
 					opens, tsOK := headerOpens(d, time.Now())
 					dup, tag := e.cacheHolds(d[:16])
@@ -925,12 +1068,12 @@ func main() {
 				}
 			}
 		}
-		r.Rep.Rule = "Probes against a real server Mux on simnet (TCP and UDP, virtual time) with a concurrent genuine echo client: every strict prefix (0..71 bytes) and every single-bit flip (576) of the 72-byte header of captured genuine first segments (flips followed by the rest of the segment; on UDP also from the genuine client's own source address), random strings of boundary and random lengths 0..65536, constant/ASCII strings, well-formed refcodec handshakes under a wrong password, an unknown user, a real user's hint with a foreign key, another user's password. A class is non-trivial when it differs in (server pattern, transport, kind, mutated field, length class, dup flag, source)."
+		r.Rep.Rule = "Probes against a real server Mux on simnet (TCP and UDP, virtual time) with a concurrent genuine echo client: every strict prefix (0..71 bytes) and every single-bit flip (576) of the 72-byte header of captured genuine first segments (flips followed by the rest of the segment; on UDP also from the genuine client's own source address), random strings of boundary and random lengths 0..65536, constant/ASCII strings, well-formed refcodec handshakes under a wrong password, an unknown user, a real user's hint with a foreign key, another user's password; every proper prefix (from the header on) of complete first segments / first datagrams sealed by refcodec with a registered credential (piggybacked payload, suffix padding up to 255; each probe cut from its own freshly sealed segment so that the replay cache does not mask the parser; on TCP followed by a stall and by the prober closing), and on UDP such complete datagrams followed by k extra bytes (all multiples of 256 +-1 and the maximum in quick, every k up to 1500 bytes in thorough); the complete crafted segment itself must be accepted. A class is non-trivial when it differs in (server pattern, transport, kind, mutated field, length class, dup flag, source)."
 	case "replay":
 		for _, tr := range transports() {
 			runReplay(r, tr)
 		}
-		r.Rep.Rule = "Recorded genuine sessions (both users, several sizes) replayed on new TCP connections (whole stream, every prefix at a segment boundary up to 6 and the last, first segment alone, header alone, header+1, first segment minus one byte) or as datagrams from another source address (first datagram, all datagrams), at +0 s, +30 s, +119 s, +239 s (inside the retention of the replay cache) and +400 s, +800 s (after it; key and timestamp expired), with the original still open or closed, each time concurrently with a fresh genuine client; the case line carries what refcodec (opens, timestamp) and the cache snapshot (dup) say at that instant."
+		r.Rep.Rule = "Recorded genuine sessions (both users, several sizes) replayed on new TCP connections (whole stream, every prefix at a segment boundary up to 6 and the last, first segment alone, header alone, header+1, first segment minus one byte) or as datagrams from another source address (first datagram, and every recorded datagram - open request, data, acks, close - individually, each from its own fresh address; further short sessions are closed at once and their datagrams replayed for the first time only at +6 s resp. +30 s, after the session was cleaned), at +0 s, +6 s, +30 s, +119 s, +239 s (inside the retention of the replay cache) and +400 s, +800 s (after it; key and timestamp expired), with the original still open or closed, each time concurrently with a fresh genuine client; the case line carries what refcodec (opens, timestamp) and the cache snapshot (dup) say at that instant."
 	default:
 		panic("unknown -mode " + *mode)
 	}
